@@ -1006,6 +1006,18 @@ func (e *Env) call(x *ECall) *SV {
 		return e.boolSV("(> " + arg(0).S + " " + e.old.alloc + ")")
 	case "allocated":
 		return e.boolSV("(and (> " + arg(0).S + " 0) (<= " + arg(0).S + " " + e.st.alloc + "))")
+	case "bytestr":
+		// bytestr(b): the string with the bytes of slice b
+		c.declBytestr()
+		v := arg(0)
+		k, hs := c.elemHeap("Int")
+		return &SV{S: fmt.Sprintf("(ext.bytestr (select %s (s-ref %s)) (s-off %s) (s-len %s))", c.heapGet(e.st, k, hs), v.S, v.S, v.S), T: types.Typ[types.String]}
+	case "itoa":
+		c.uses["str"] = true
+		return &SV{S: fmt.Sprintf("(ite (>= %[1]s 0) (str.from_int %[1]s) (str.++ \"-\" (str.from_int (- %[1]s))))", arg(0).S), T: types.Typ[types.String]}
+	case "chr":
+		c.uses["str"] = true
+		return &SV{S: "(str.from_code " + arg(0).S + ")", T: types.Typ[types.String]}
 	case "runeCount":
 		c.uses["str"] = true
 		c.declRuneCount()
@@ -1040,19 +1052,11 @@ func (e *Env) call(x *ECall) *SV {
 	case "typeis":
 		// typeis(x, T): dynamic type of interface x is T
 		v := arg(0)
-		id, ok := x.Args[1].(*EIdent)
-		if !ok {
-			specFail("typeis needs a type name")
-		}
-		t := c.resolveType(id.Name, e.pkg)
+		t := c.resolveType(typeArgName(x.Args[1]), e.pkg)
 		return e.boolSV(fmt.Sprintf("(= (if-tag %s) %d)", v.S, c.typeID(t)))
 	case "unbox":
 		v := arg(0)
-		id, ok := x.Args[1].(*EIdent)
-		if !ok {
-			specFail("unbox needs a type name")
-		}
-		t := c.resolveType(id.Name, e.pkg)
+		t := c.resolveType(typeArgName(x.Args[1]), e.pkg)
 		return &SV{S: c.unbox(v.S, t), T: t}
 	}
 	// math functions (uninterpreted with assumed facts)
@@ -1110,7 +1114,7 @@ func (e *Env) specCall(sf *SpecFunc, x *ECall) *SV {
 	if len(all) > 0 {
 		term = "(spec." + sf.Name + " " + strings.Join(all, " ") + ")"
 	}
-	if sf.Rec && sf.Body != nil && e.st.paramHeaps == nil && groundTerm(term) {
+	if sf.Rec && sf.Body != nil && !c.opaque[sf.Name] && e.st.paramHeaps == nil && groundTerm(term) {
 		// one definitional unfolding per ground occurrence (fuel 1): T = body[args]
 		if c.unfolded == nil {
 			c.unfolded = map[string]bool{}
@@ -1159,6 +1163,15 @@ func (c *Ctx) defineSpec(sf *SpecFunc, spkg *types.Package, resT types.Type) *sp
 		vars[p.Name] = &SV{S: n, T: t}
 	}
 	rs := c.sortOf(resT)
+	if sf.Body != nil && c.opaque[sf.Name] {
+		// definition hidden: the proof only needs congruence
+		if len(psorts) == 0 {
+			c.declareConst("spec."+sf.Name, rs)
+		} else {
+			c.declareFun("spec."+sf.Name, psorts, rs)
+		}
+		return inst
+	}
 	if sf.Body == nil {
 		// uninterpreted, with axioms
 		if len(psorts) == 0 {
@@ -1218,4 +1231,18 @@ func (c *Ctx) defineSpec(sf *SpecFunc, spkg *types.Package, resT types.Type) *sp
 		c.trusted["axiom on "+sf.Name+": "+ax.Src] = true
 	}
 	return inst
+}
+
+// typeArgName: a type given as an identifier or, for composite types, as a string literal.
+func typeArgName(x Expr) string {
+	switch a := x.(type) {
+	case *EIdent:
+		return a.Name
+	case *EStr:
+		return a.V
+	case *ESel:
+		return a.String()
+	}
+	specFail("expected a type name")
+	return ""
 }
